@@ -41,7 +41,8 @@ ChangeSetGit(s, begin, end) == ChangeSetBy(s, begin, end, GitDiffWt)      \* as 
 Write(s, p, c)  == [s EXCEPT !.wt[p] = c]
 Delete(s, p)    == [s EXCEPT !.wt[p] = 0]
 Move(s, p, q)   == [s EXCEPT !.wt[q] = s.wt[p], !.wt[p] = 0]
-GitMv(s, p, q)  == [s EXCEPT !.wt[q] = s.wt[p], !.wt[p] = 0, !.idx[q] = s.wt[p], !.idx[p] = 0]
+\* `git mv` renames the file and moves the INDEX ENTRY as it is (staged content, not the working-tree content)
+GitMv(s, p, q)  == [s EXCEPT !.wt[q] = s.wt[p], !.wt[p] = 0, !.idx[q] = s.idx[p], !.idx[p] = 0]
 Stage(s, p)     == [s EXCEPT !.idx[p] = s.wt[p]]
 StageAll(s)     == [s EXCEPT !.idx = [p \in s.paths |-> IF p \in s.ignored THEN s.idx[p] ELSE s.wt[p]]]
 Commit(s)       == [s EXCEPT !.commits = Append(@, s.idx)]
